@@ -39,7 +39,7 @@ DISALLOWED = ["script", "iframe", "title", "textarea", "xmp", "style", "noembed"
 
 
 def base_consts(part, **kw):
-    c = {"Part": part, "ElemKinds": set(ELEMS), "MaxElems": 0, "Sigma": {97}, "MaxLen": 0, "DevUnquoted": False}
+    c = {"Part": part, "ElemKinds": set(ELEMS), "MaxElems": 0, "Sigma": {97}, "MaxLen": 0, "DevUnquoted": False, "DevTitleSubstring": False}
     c.update(kw)
     return c
 
@@ -112,7 +112,7 @@ def run(ctx):
                 "within the bound x spellings of the disallowed names. V: grammar-generated HTML fragments x flag settings. "
                 "non-trivial = a block with at least one convertible element / a value with an option-significant character / a string with a disallowed tag")
     ctx.assumptions += ["docutils front end; gfm_only via html_to_nodes with a gfm_only renderer configuration"]
-    inv_all = ["PassThrough", "OneNodePerElement", "ValueUnchanged", "Neutralised", "Emit"]
+    inv_all = ["PassThrough", "OneNodePerElement", "ValueUnchanged", "Neutralised", "TitleRule", "Emit"]
     # ---- T ------------------------------------------------------------------------------------
     rc = tlc.run("HtmlBlocks", tlc.cfg(ctx, "hb_classify.cfg", base_consts("classify", MaxElems=3), invariants=inv_all, properties=["Terminates"]), wd=ctx.wd, coverage=True)
     tlc.expect_holds(rc, "HtmlBlocks[classify] M |= S")
@@ -132,6 +132,32 @@ def run(ctx):
         if rc.coverage.get(act, (0, 0))[0] == 0:
             raise tlc.MachineryFailure(f"HtmlBlocks: action {act} never taken")
 
+    toks = ["title", "admonition-title", "subtitle", "card-title", "untitled", "lead"]
+    rt = tlc.run("HtmlBlocks", tlc.cfg(ctx, "hb_title.cfg", base_consts("title", Sigma=set(toks), MaxLen=2), invariants=inv_all), wd=ctx.wd)
+    tlc.expect_holds(rt, "HtmlBlocks[title] M |= S")
+    ctx.add_tlc("HtmlBlocks_title", rt, "class token lists <= 2 over 6 tokens")
+    rdt = tlc.run("HtmlBlocks", tlc.cfg(ctx, "hb_title_dev.cfg", base_consts("title", Sigma=set(toks), MaxLen=1, DevTitleSubstring=True), invariants=["TitleRule"]), wd=ctx.wd)
+    tlc.expect_violation(rdt, "TitleRule", "HtmlBlocks Dev_TitleSubstring")
+    ctx.add_tlc("HtmlBlocks_dev_titlesubstring", rdt, "expected counterexample found (class 'subtitle')")
+    for rec in rt.records:
+        for tag in ("p", "div"):
+            cls = " ".join(rec["val"])
+            text = f'<div class="admonition">\n<{tag} class="{cls}">FIRSTx</{tag}>\nBODYx\n</div>\n'
+            kinds, doc, _ = render_block(text, ["html_admonition"])
+            adm = [n for n in doc.findall(nodes.Admonition)]
+            ctx.count(("title", cls, tag), nontrivial=bool(rec["val"]))
+            ctx.traces_validated += 1
+            case = {"leg": "R-title", "markdown": text}
+            if len(adm) != 1 or not isinstance(adm[0][0], nodes.title):
+                ctx.violation(f"div.admonition with first child <{tag} class={cls!r}>: no single titled admonition produced", case)
+                continue
+            ttl = adm[0][0].astext()
+            is_title = "FIRSTx" in ttl
+            if is_title != (rec["out"] == ["title"]):
+                ctx.violation(f"div.admonition with first child <{tag} class={cls!r}>: it is {'taken as the title' if is_title else 'left in the body'}, "
+                              f"the recognised title forms say {'title' if rec['out'] == ['title'] else 'body'} (title: {ttl!r})", case)
+            elif not is_title and "FIRSTx" not in adm[0].astext():
+                ctx.violation(f"div.admonition with first child <{tag} class={cls!r}>: its text is lost", case)
     # ---- R classify ---------------------------------------------------------------------------
     nrec = 0
     for rec in rc.records:
